@@ -23,7 +23,9 @@ pub fn check() -> Check {
 }
 
 fn plan(tier: Tier) -> Vec<Workload> {
-    vec![Workload::new("sessions", tier.pick(1_200, 40_000))]
+    let mut w = Workload::new("sessions", tier.pick(1_200, 40_000));
+    w.watchdog_s = 900;
+    vec![w]
 }
 
 const WAIT: Duration = Duration::from_secs(30);
@@ -145,6 +147,22 @@ pub fn utf16_col(line: &str, b: usize) -> u32 {
     units
 }
 
+/// M-utf16 as a table: UTF-16 units before every byte offset (floored to a char boundary), one pass
+pub fn utf16_table(line: &str) -> Vec<u32> {
+    let mut t = vec![0u32; line.len() + 1];
+    let mut units = 0u32;
+    let mut i = 0usize;
+    for ch in line.chars() {
+        for k in 0..ch.len_utf8() {
+            t[i + k] = units;
+        }
+        i += ch.len_utf8();
+        units += ch.len_utf16() as u32;
+    }
+    t[line.len()] = units;
+    t
+}
+
 pub fn utf16_len(line: &str) -> u32 {
     line.chars().map(|c| c.len_utf16() as u32).sum()
 }
@@ -181,9 +199,10 @@ fn expected(text: &str) -> (Vec<(u64, String, u64, u64, u64)>, Vec<(u32, u32, u3
     let mut tokens = vec![];
     for (li, ts) in a.token_types().iter().enumerate() {
         let line = lines.get(li).copied().unwrap_or("");
+        let table = utf16_table(line);
         for (ty, r) in ts {
-            let s = utf16_col(line, r.start);
-            let e = utf16_col(line, r.end);
+            let s = table[r.start.min(line.len())];
+            let e = table[r.end.min(line.len())];
             tokens.push((li as u32, s, e - s, token_type_index(*ty)));
         }
     }
@@ -227,7 +246,12 @@ fn document(rng: &mut Rng) -> String {
             let g = prog::generate(rng, &GenOpts { inputs: true, stops: true, ..GenOpts::default() });
             g.prog.text().replace('\n', if rng.chance(1, 4) { "\r\n" } else { "\n" })
         }
-        8 => format!("10 PRINT {}1{}", "(".repeat(rng.usize(300)), ")".repeat(rng.usize(300))),
+        8 => match rng.below(3) {
+            0 => format!("10 PRINT {}1{}", "(".repeat(rng.usize(300)), ")".repeat(rng.usize(300))),
+            // long runs of one token: any recursion that is not behind the nesting limit exhausts the server's stack
+            1 => format!("10 PRINT {}1", rng.s(&["-", "NOT ", "+", "- -", "NOT -"]).repeat(20_000 + rng.usize(20_000))),
+            _ => format!("10 {}PRINT 1", rng.s(&["IF 1 THEN ", "IF 0 THEN PRINT 1 ELSE "]).repeat(5_000 + rng.usize(5_000))),
+        },
         _ => String::new(),
     }
 }
@@ -327,7 +351,8 @@ fn session(rng: &mut Rng, stats: &mut Stats, nontrivial: &mut Vec<u64>) -> Resul
             nontrivial.push(hash_str(&text));
         }
         // semantic tokens for some documents (always for the latest text of that uri)
-        if rng.chance(2, 3) {
+        let huge_line = text.split('\n').any(|l| l.len() > 4_000);
+        if rng.chance(2, 3) && !huge_line {
             let id = srv.request("textDocument/semanticTokens/full", json!({"textDocument": {"uri": uri}})).map_err(inc)?;
             let resp = match srv.wait_for(|v| v.get("id").and_then(|x| x.as_u64()) == Some(id)) {
                 Ok(v) => v,
